@@ -360,6 +360,10 @@ class Gen:
                 continue
             if self.nodes[v]["kind"] in ("item", "src") or self.nodes[u]["kind"] == "item" or u in self.writers:
                 continue  # (a dependency onto a source whose store nobody writes is not the documented idiom)
+            if v in self.writers:
+                # (nor onto a side-effect writer or onto the private literal in front of its source: the writer would not
+                #  be ordered after u, so what it writes need not be newer than everything its source depends on)
+                continue
             world["late_deps"].append([u, v])
             ds = ref.deps_star(world)
 
